@@ -61,11 +61,13 @@ def make_exc(kind):
 
 
 class Ctr:
-    def __init__(self, k=None, exc='oserror'):
+    def __init__(self, k=None, exc='oserror', persistent=False):
         self.n = 0
         self.k = k
         self.exc = exc
+        self.persistent = persistent      # disk full: every call from k on fails, close included
         self.log = []
+        self.frozen = False               # after the save returned: finalisers closing leaked files are not calls of the save
 
 
 class Faulty(io.BytesIO):
@@ -75,11 +77,14 @@ class Faulty(io.BytesIO):
     def __init__(self, key, ctr):
         super().__init__()
         self.key, self.ctr = key, ctr
+        self.was_closed = False
 
     def _tick(self, what):
+        if self.ctr.frozen:
+            return
         i = self.ctr.n
         self.ctr.n += 1
-        if i == self.ctr.k:
+        if i == self.ctr.k or (self.ctr.persistent and self.ctr.k is not None and i >= self.ctr.k):
             self.ctr.log.append((self.key, what, 'FAIL'))
             raise make_exc(self.ctr.exc)
         self.ctr.log.append((self.key, what))
@@ -97,17 +102,52 @@ class Faulty(io.BytesIO):
         return super().tell()
 
     def close(self):
+        # like a real buffered file: the first close flushes (and may fail — the file is closed all the same);
+        # any later close (e.g. from Opener.__del__) is a no-op and not a call
+        if self.was_closed:
+            return
+        self.was_closed = True
         self._tick('c')
 
 
-def file_map_for(cls, ctr):
+FAULTY_EXT = '.vfault'
+_REG = {}
+_SERIAL = [0]
+
+
+def _faulty_open(filename, mode='rb'):
+    return _REG[filename]
+
+
+def register_opener():
+    """Destinations given by FILE NAME that nibabel opens and closes itself, yet fault-injectable: the extension
+    .vfault is registered the documented way (ImageOpener.compress_ext_map[ext] = (function, args)) with an
+    'open' function that hands out the prepared in-memory object."""
+    from nibabel.openers import ImageOpener
+    ImageOpener.compress_ext_map[FAULTY_EXT] = (_faulty_open, ('mode',))
+
+
+def file_map_for(cls, ctr, mine=False):
     from nibabel.fileholders import FileHolder
     keys = [k for k, _ in cls.files_types]
-    return {k: FileHolder(fileobj=Faulty(k, ctr)) for k in keys}
+    if not mine:
+        return {k: FileHolder(fileobj=Faulty(k, ctr)) for k in keys}
+    register_opener()
+    fm = {}
+    _SERIAL[0] += 1
+    for k in keys:
+        name = f'/nonexistent/verif_c07_{os.getpid()}_{_SERIAL[0]}_{k}{FAULTY_EXT}'
+        _REG[name] = Faulty(k, ctr)
+        fm[k] = FileHolder(filename=name)
+    return fm
 
 
 def out_bytes(fm):
-    return {k: fh.fileobj.getvalue() for k, fh in fm.items()}
+    out = {}
+    for k, fh in fm.items():
+        f = fh.fileobj if fh.fileobj is not None else _REG.pop(fh.filename)
+        out[k] = f.getvalue()
+    return out
 
 
 # ------------------------------------------------------------------ images
@@ -439,26 +479,29 @@ def fmt_case(K, od, state, env, mine='0 0 0', oserr=True):
     return ' '.join(K) + ' ' + od + ' ' + ' '.join(state) + ' ' + ' '.join(env) + ' ' + mine + (' 1' if oserr else ' 0')
 
 
-def attempt(spec, k, healthy_after=True, exc='oserror'):
+def attempt(spec, k, healthy_after=True, exc='oserror', mine=False, persistent=False):
     """One save of a fresh image with the k-th call failing (k=None: clean); then, on the SAME
     object, a save to a healthy destination."""
     img, kw = make_image(spec)
     before = snapshot(img)
-    ctr = Ctr(k, exc)
-    fm = file_map_for(type(img), ctr)
+    ctr = Ctr(k, exc, persistent)
+    fm = file_map_for(type(img), ctr, mine)
     res = 'ok'
     with warnings.catch_warnings():
         warnings.simplefilter('ignore')
         try:
             img.to_file_map(fm, **kw)
+            ctr.frozen = True
         except BaseException as e:  # noqa  (KeyboardInterrupt is one of the injected types)
+            ctr.frozen = True             # before the traceback (and the files the failed save leaked) is released
             if isinstance(e, KeyboardInterrupt) and not getattr(e, '_verif_injected', False):
                 raise
             res = exc_enum(e)
     after = snapshot(img)
     st = model_state(img, spec['cls'], before)
+    ob = out_bytes(fm)           # (also drops the registered file-name destinations)
     out = {'res': res, 'n': ctr.n, 'log': list(ctr.log), 'before': before, 'after': after, 'state': st,
-           'bytes': out_bytes(fm) if k is None else None}
+           'bytes': ob if k is None else None}
     if healthy_after:
         ctr2 = Ctr(None)
         fm2 = file_map_for(type(img), ctr2)
@@ -494,11 +537,11 @@ def written_header_fields(spec, clean_bytes):
     return '/'.join(hdr_fields(h, cls))
 
 
-def run_case(chk, spec, mout, tag, exc='oserror'):
+def run_case(chk, spec, mout, tag, exc='oserror', mine=False, persistent=False, count_clean=True):
     """Sweep k over all calls of the clean run; compare with the model's sweep; evaluate the
     property predicate directly."""
-    case0 = {'spec': spec, 'exc': exc}
-    clean = attempt(spec, None)
+    case0 = {'spec': spec, 'exc': exc, 'mine': mine, 'persistent': persistent}
+    clean = attempt(spec, None, mine=mine)
     n = clean['n']
     # ---- parse the model's sweep
     dis = []
@@ -515,15 +558,17 @@ def run_case(chk, spec, mout, tag, exc='oserror'):
     fresh_bytes = clean['bytes'] if clean['res'] == 'ok' else None
     results = []
     for k in [None] + list(range(n)):
-        r = clean if k is None else attempt(spec, k, exc=exc)
+        r = clean if k is None else attempt(spec, k, exc=exc, mine=mine, persistent=persistent)
         results.append((k, r))
     for k, r in results:
         case = dict(case0, k=k)
         nontriv = k is not None and r['res'] != 'ok'
-        if k is None and exc != 'oserror' and tag != 'random':
-            continue                       # the clean run was counted and compared with the OSError sweep
+        if k is None and not count_clean:
+            continue                       # this clean run was counted and compared in an earlier sweep
         chk.tagc('injected:' + exc)
-        chk.count(key=(repr(sorted(spec.items(), key=str)), k, exc) if r['n'] > 0 else None,
+        chk.tagc('destination:' + ('file name (nibabel opens and closes)' if mine else 'caller file object') +
+                 (', persistent fault' if persistent else ', single fault'))
+        chk.count(key=(repr(sorted(spec.items(), key=str)), k, exc, mine, persistent) if r['n'] > 0 else None,
                   tag=f"{spec['cls']}", sample={'spec': spec, 'k': k, 'result': r['res']} if (k == 4 and len(chk.samples) < 6) else None)
         chk.tagc('outcome:' + ('clean_ok' if k is None and r['res'] == 'ok' else 'fault_absorbed' if k is not None and r['res'] == 'ok'
                                else r['res'] if k is not None else 'clean_' + r['res']))
@@ -833,6 +878,117 @@ def part_alias_histories(chk, nmat):
                            theorem='correspondence C07/Model.v nifti_save <-> Nifti1Pair.to_file_map')
 
 
+OWN_FILE_CASES = [('Nifti1Image', 'x.nii'), ('Nifti1Image', 'x.nii.gz'), ('Nifti2Image', 'x.nii.gz'), ('Nifti1Pair', 'x.img'),
+                  ('AnalyzeImage', 'x.img'), ('Spm99AnalyzeImage', 'x.img'), ('MGHImage', 'x.mgz'), ('MGHImage', 'x.mgh')]
+OWN_FILE_SPELLINGS = ['same', 'relative', 'symlinked_dir', 'hardlink']
+
+
+def own_file_one(top, cls, fname, spelling):
+    """Load <top>/real/<fname>, change the requested on-disk dtype, save onto the SAME file named `spelling`-wise;
+    the data seen through img.dataobj and the affine must be as before, and a further save elsewhere must hold them."""
+    import nibabel as nib
+    klass = get_class(cls)
+    real = os.path.join(top, 'real')
+    os.makedirs(real, exist_ok=True)
+    link = os.path.join(top, 'link')
+    if not os.path.exists(link):
+        os.symlink(real, link)
+    src = os.path.join(real, fname)
+    rng = np.random.default_rng(3)
+    if cls in ('MGHImage', 'AnalyzeImage'):
+        data = rng.integers(-3000, 3000, size=(4, 5, 3)).astype(np.int16)
+    else:
+        data = rng.normal(50.0, 20.0, size=(4, 5, 3)).astype(np.float32)
+    img0 = klass(data, np.diag([2.0, 2.0, 2.0, 1.0]))
+    img0.set_data_dtype(np.int16)
+    img0.to_filename(src)
+    img = klass.from_filename(src)
+    before = np.array(img.dataobj)
+    aff_before = np.array(img.affine)
+    if spelling == 'same':
+        dest = src
+    elif spelling == 'relative':
+        dest = os.path.relpath(src, os.getcwd())
+    elif spelling == 'symlinked_dir':
+        dest = os.path.join(link, fname)
+    else:
+        dest = os.path.join(real, 'hl_' + fname)
+        if os.path.exists(dest):
+            os.remove(dest)
+        os.link(src, dest)
+        if fname.endswith('.img'):          # pair: link the header too
+            h = os.path.join(real, 'hl_' + fname[:-4] + '.hdr')
+            if os.path.exists(h):
+                os.remove(h)
+            os.link(src[:-4] + '.hdr', h)
+    img.set_data_dtype(np.float32)
+    img.to_filename(dest)
+    try:
+        after = np.array(img.dataobj)
+    except Exception as e:  # noqa
+        return f'data unreadable after the save: {type(e).__name__}: {e}'[:200]
+    if after.shape != before.shape or not np.array_equal(after, before):
+        return 'img.dataobj changed by a successful save onto the image\'s own file'
+    if not np.array_equal(np.array(img.affine), aff_before):
+        return 'affine changed by a successful save onto the image\'s own file'
+    other = os.path.join(top, 'other_' + fname)
+    img.to_filename(other)
+    again = np.array(klass.from_filename(other).dataobj)
+    # the requested on-disk type is float32: the file holds the data rounded to float32 (no scaling involved)
+    if again.shape != before.shape or not np.array_equal(again.astype(np.float32), before.astype(np.float32)):
+        return 'a further save elsewhere holds different data'
+    return None
+
+
+def own_file_child(top):
+    """Child-process entry (an overwritten memory map can crash the interpreter): one JSON line per case."""
+    import json
+    ensure_impl_path()
+    warnings.simplefilter('ignore')
+    for cls, fname in OWN_FILE_CASES:
+        for sp in OWN_FILE_SPELLINGS:
+            try:
+                r = own_file_one(os.path.join(top, f'{cls}_{fname}_{sp}'), cls, fname, sp)
+                print('CASE ' + json.dumps({'cls': cls, 'fname': fname, 'spelling': sp, 'failed': r}), flush=True)
+            except Exception as e:  # noqa
+                print('CASE ' + json.dumps({'cls': cls, 'fname': fname, 'spelling': sp, 'error': f'{type(e).__name__}: {e}'[:200]}), flush=True)
+
+
+def part_own_file(chk):
+    """A loaded image saved back onto the file it reads, the target spelled differently (relative, through a
+    symlinked directory, hard link): a successful save must not change what the image represents."""
+    import json
+    import subprocess
+    from common import PY, VERIF, impl_env
+    top = os.path.join(chk.workdir, 'own')
+    os.makedirs(top, exist_ok=True)
+    env = impl_env()
+    env['PYTHONPATH'] = env['PYTHONPATH'] + os.pathsep + os.path.join(VERIF, 'harness')
+    code = f"import c07; c07.own_file_child({top!r})"
+    try:
+        r = subprocess.run([PY, '-c', code], capture_output=True, text=True, env=env, timeout=240, cwd=chk.workdir)
+        out, rc = r.stdout, r.returncode
+    except subprocess.TimeoutExpired:
+        out, rc = '', 'timeout'
+    seen = set()
+    for ln in out.splitlines():
+        if not ln.startswith('CASE '):
+            continue
+        o = json.loads(ln[5:])
+        seen.add((o['cls'], o['fname'], o['spelling']))
+        chk.count(key=('own_file', o['cls'], o['fname'], o['spelling']), tag='own_file:' + o['spelling'])
+        if o.get('error'):
+            chk.refusal('own_file:' + o['error'].split(':')[0])
+        elif o.get('failed'):
+            report(chk, 'property_violation', case={'own_file': o}, predicate=o['failed'] + f" ({o['cls']} {o['fname']}, target spelled: {o['spelling']})",
+                   theorem='C07_success_preserves')
+    missing = [(c, f, sp) for c, f in OWN_FILE_CASES for sp in OWN_FILE_SPELLINGS if (c, f, sp) not in seen]
+    if missing:
+        report(chk, 'property_violation', case={'own_file': {'cls': missing[0][0], 'fname': missing[0][1], 'spelling': missing[0][2]}},
+               predicate=f'child process saving an image onto its own file died (rc={rc}) at or before {missing[0]}',
+               theorem='C07_success_preserves')
+
+
 def measure_nmat():
     """Number of write calls scipy.io.savemat makes for the SPM .mat (external code)."""
     spec = specs_for('Spm99AnalyzeImage', 'int')
@@ -987,6 +1143,23 @@ def part_devfull(chk, nmat):
                        theorem='correspondence C07/Model.v <-> to_file_map (close_if_mine)')
 
 
+EXTRA_VARIANTS = ('f2i', 'int', 'override', 'smallest', '4d', 'xflip_false', 'exts', 'user_offset')
+
+
+def combos_for(name, rng):
+    """(exception type, destination given by file name, persistent fault) sweeps of one spec.  Fixed grid: a single
+    fault on caller file objects once per exception type; for the main variants also a persistent fault (disk full:
+    every call from k on fails, close included) and destinations that nibabel opens and closes itself."""
+    if rng is not None:
+        out = [(rng.choice(EXC_TYPES), rng.random() < 0.4, rng.random() < 0.4)]
+    else:
+        out = [(e, False, False) for e in EXC_TYPES]
+        if name.split('/')[-1] in EXTRA_VARIANTS:
+            out += [('oserror', False, True), ('oserror', True, False), ('oserror', True, True), ('keyboard', True, True)]
+    combos_for.last = out
+    return out
+
+
 def run(chk: Check):
     ensure_impl_path()
     chk.rule = ('every writable class (Analyze, SPM99, SPM2, NIfTI-1/2 pair and single, MGH, CIFTI-2) x variant '
@@ -995,7 +1168,7 @@ def run(chk: Check):
                 'write/seek/tell/close calls of the clean run (every call failing in turn, once per injected exception type: OSError(ENOSPC), KeyboardInterrupt, RuntimeError, MemoryError) + the clean run, each followed '
                 'by a retry of the same object to a healthy destination; seeded random specs (class, shape, dtypes, '
                 'alias, preset scaling, offsets, extensions, default_x_flip) swept the same way; alias-switching histories (exhaustive over 3 operations + random) compared with fresh images; /dev/full destinations (real ENOSPC at '
-                'close); two saves through file names for plain/.gz/.bz2/.zst; a case = (spec, k), non-trivial when the '
+                'close); two saves through file names for plain/.gz/.bz2/.zst; persistent faults (every call from k on fails) and file-name destinations nibabel opens and closes itself (.vfault opener); own-file saves under 4 spellings of the target; a case = (spec, k), non-trivial when the '
                 'save makes at least one file call')
     chk.assumptions = ['a fault is an exception raised by a destination file-object call before the call has any effect '
                        '(partial writes inside one call are not modelled)',
@@ -1022,6 +1195,8 @@ def run(chk: Check):
         specs.append(('random', random_spec(chk.rng)))
     lines = []
     usable = []
+    plan = []
+    seen_lines = set()
     for i, (name, spec) in enumerate(specs):
         try:
             make_image(spec)
@@ -1031,19 +1206,29 @@ def run(chk: Check):
         K, od, state, env = model_case(spec, nmat)
         # the fixed grid is swept once per injected exception type (the model needs only "OSError or not":
         # seek_tell catches OSError); a random spec gets one type
-        lines.append(f'{len(usable)}.1 sweep ' + fmt_case(K, od, state, env, oserr=True))
-        lines.append(f'{len(usable)}.0 sweep ' + fmt_case(K, od, state, env, oserr=False))
+        for exc_, mi, pe in combos_for(name, chk.rng if name == 'random' else None):
+            oe = 1 if exc_ == 'oserror' else 0
+            key = f"{len(usable)}.{oe}.{int(mi)}.{int(pe)}"
+            if key not in seen_lines:
+                seen_lines.add(key)
+                lines.append(f"{key} {'sweepp' if pe else 'sweep'} " +
+                             fmt_case(K, od, state, env, mine='1 1 1' if mi else '0 0 0', oserr=bool(oe)))
+        plan.append(list(combos_for.last))
         usable.append((name, spec))
     mout = run_model(PROP, lines)
     ncalls = {}
     for i, (name, spec) in enumerate(usable):
-        types = EXC_TYPES if name != 'random' else [chk.rng.choice(EXC_TYPES)]
-        for exc in types:
-            n = run_case(chk, spec, mout.get(f"{i}.{1 if exc == 'oserror' else 0}"), name, exc)
+        combos = plan[i]
+        seen_clean = set()
+        for exc, mine, pers in combos:
+            n = run_case(chk, spec, mout.get(f"{i}.{1 if exc == 'oserror' else 0}.{int(mine)}.{int(pers)}"), name, exc,
+                         mine=mine, persistent=pers, count_clean=(mine not in seen_clean))
+            seen_clean.add(mine)
         ncalls[name] = n if name != 'random' else ncalls.get(name, 0) + n
     chk.extra['calls_per_fixed_case'] = {k: v for k, v in ncalls.items() if k != 'random'}
     part_histories(chk, [sp for nm, sp in usable if nm != 'random'], nmat)
     part_alias_histories(chk, nmat)
+    part_own_file(chk)
     part_devfull(chk, nmat)
     part_compressed(chk)
     part_vm(chk, lines)
@@ -1120,7 +1305,7 @@ def _replay(chk, obj):
         spec = c['spec']
         if spec.get('preset'):
             spec['preset'] = tuple(spec['preset'])
-        r = attempt(spec, c.get('k'), exc=c.get('exc', 'oserror'))
+        r = attempt(spec, c.get('k'), exc=c.get('exc', 'oserror'), mine=c.get('mine', False), persistent=c.get('persistent', False))
         clean = attempt(spec, None, healthy_after=False)
         d1 = diff_keys(r['before'], r['after'])
         bad = bool(d1)
@@ -1128,10 +1313,17 @@ def _replay(chk, obj):
             bad = True
         if diff_keys(r['after'], r['after_retry']):
             bad = True
-        print({'k': c.get('k'), 'injected': c.get('exc', 'oserror'), 'result': r['res'], 'calls': r['log'][-6:], 'changed': d1,
+        print({'k': c.get('k'), 'injected': c.get('exc', 'oserror'), 'file_name_destination': c.get('mine', False), 'persistent': c.get('persistent', False), 'result': r['res'], 'calls': r['log'][-6:], 'changed': d1,
                'retry': r['retry'][0], 'retry_bytes_equal_fresh': r['retry'][1] == clean['bytes'] if clean['res'] == 'ok' else None})
         print('property fails on this case' if bad else 'property holds on this case')
         return 1 if bad else 0
+    if isinstance(c, dict) and 'own_file' in c:
+        o = c['own_file']
+        os.makedirs(chk.workdir, exist_ok=True)
+        r = own_file_one(os.path.join(chk.workdir, 'own_replay'), o['cls'], o['fname'], o['spelling'])
+        print({'failed': r})
+        print('property fails on this case' if r else 'property holds on this case')
+        return 1 if r else 0
     if isinstance(c, dict) and 'two_saves' in c:
         spec = c['two_saves']['spec']
         if spec.get('preset'):
